@@ -148,6 +148,14 @@ def check(col: Collector, tier: str):
                 bt = s.body_text
                 col.add("C14.R2", f"template.atlas:{var}", "space-separated", bt.strip() == "{{" + s.target + "}}" and bt != bt.strip(),
                         f"libraries must be separated by whitespace (slot body {bt!r})", f"{s.template}:{s.lineno}")
+    # every line-oriented slot (all but the comma/blank separated ones) puts each item on a line of its own: jinja whitespace control
+    # (`-%}` / `{%-`) around the loop body glues `#include "a.h"#include "b.h"` into one malformed line
+    for r, t in tpls.items():
+        for s in t.slots:
+            if s.var in ("link_libraries", "instance_initialization"):
+                continue
+            col.add("C14.R2", f"template:{r.split('template/')[-1]}:{s.var}", "one-item-per-line", "\n" in s.body_text,
+                    f"the loop body as jinja sees it is {s.body_text!r}: consecutive items are not separated by a line break", f"{r}:{s.lineno}")
     # CMS: body includes honoured
     for r, t in tpls.items():
         if "/cms/" in r and r.endswith("Analyzer.cc"):
